@@ -44,7 +44,7 @@ def main():
     ck.add_tlc(mc, "Proxy_mc (UnsupportedRule=pass, CspRule=policylist)")
     negs = {}
     neglist = (("Proxy_ascoded.cfg", "PassThroughIsIdentity"), ("Proxy_ascoded_csp.cfg", "HtmlGetsExactlyOneScript"),
-               ("Proxy_ascoded_head.cfg", "HeadIsUntouched"), ("Proxy_ascoded_ctcase.cfg", "HtmlGetsExactlyOneScript"),
+               ("Proxy_ascoded_head.cfg", "HeadIsUntouched"), ("Proxy_ascoded_status.cfg", "HeadIsUntouched"), ("Proxy_ascoded_ctcase.cfg", "HtmlGetsExactlyOneScript"),
                ("Proxy_neg_noscripting.cfg", "DocumentOnlyAppendedTo"), ("Proxy_neg_length.cfg", "LengthMatchesBody"))
     negres, negerr = {}, []
 
@@ -68,12 +68,13 @@ def main():
 
     # --- which rules does the tree implement? decided by the real proxy ------------------------------
     # (the probe and the self-test take their configurations -- including the CSP header structure -- from TLC)
-    NCASES = 4 * 4 * 2 * 2 * 11 * 11 * 2 + 5 * 4 * 2 * 2 * 2 * 2 * 2 + 4 * 2 * 2 * 2 * 2   # GET product + HEAD sub-space + TEXT/HTML sub-space
+    NCASES = 4 * 4 * 2 * 2 * 11 * 11 * 2 + 5 * 4 * 2 * 2 * 2 * 2 * 2 + 4 * 2 * 2 * 2 * 2 + 4 * 4 * 2 * 2   # GET product + HEAD + TEXT/HTML + 204 sub-spaces
     sc = vlib.scratch()
 
-    def emit(rule, csprule, headrule, ctrule, name):
+    def emit(rule, csprule, headrule, ctrule, statusrule, name):
         g = vlib.tlc("Proxy", "g.cfg", files={"g.cfg": cfg_with("Proxy_gen.cfg", UnsupportedRule='"%s"' % rule, CspRule='"%s"' % csprule,
-                                                                 HeadRule='"%s"' % headrule, CtRule='"%s"' % ctrule)},
+                                                                 HeadRule='"%s"' % headrule, CtRule='"%s"' % ctrule,
+                                                                 StatusRule='"%s"' % statusrule)},
                      workers=1, timeout=900)
         cs = g.tagged("CASE")
         if not g.ok or len(cs) != NCASES:
@@ -85,12 +86,17 @@ def main():
         return g, cs, path
 
     binp = vlib.go_build("./c20", "c20")
-    gen, cases, cpath = emit("pass", "policylist", "pass", "caseinsensitive", "cases0.ndjson")
+    gen, cases, cpath = emit("pass", "policylist", "pass", "caseinsensitive", "pass", "cases0.ndjson")
     s = vlib.harness_results(ck, vlib.run([binp, "probe", cpath], check=False))
     rule, csprule, headrule, ctrule = s.get("rule"), s.get("csprule"), s.get("headrule"), s.get("ctrule")
     if rule not in ("pass", "rewrite") or csprule not in ("firstline", "policylist") or headrule not in ("pass", "rewrite") \
             or ctrule not in ("casesensitive", "caseinsensitive"):
         raise vlib.InfraError("probe: %r" % s)
+    statusrule = s.get("statusrule")
+    if statusrule not in ("pass", "rewrite"):
+        raise vlib.InfraError("probe: %r" % s)
+    ck.set("nobody_status_rule_of_tree", statusrule)
+    vlib.log("tree answers a 204 labelled text/html (gzip) by:", statusrule, "-", s.get("statusdetail", ""))
     ck.set("head_rule_of_tree", headrule)
     ck.set("content_type_gate_of_tree", ctrule)
     vlib.log("tree answers HEAD for an html page by:", headrule, "-", s.get("headdetail", ""))
@@ -111,8 +117,8 @@ def main():
         ck.set("binding_selftest", "3 corrupted predictions reported, the uncorrupted twin accepted")
 
     # --- GEN: every configuration, end to end --------------------------------------------------------
-    if (rule, csprule, headrule, ctrule) != ("pass", "policylist", "pass", "caseinsensitive"):
-        gen, cases, cpath = emit(rule, csprule, headrule, ctrule, "cases.ndjson")
+    if (rule, csprule, headrule, ctrule, statusrule) != ("pass", "policylist", "pass", "caseinsensitive", "pass"):
+        gen, cases, cpath = emit(rule, csprule, headrule, ctrule, statusrule, "cases.ndjson")
     ck.add_tlc(gen, "Proxy_gen (case emission, UnsupportedRule=%s, CspRule=%s, HeadRule=%s, CtRule=%s)" % (rule, csprule, headrule, ctrule))
     p = vlib.run([binp, "cases", cpath, str(ck.seed), ck.tier], check=False, timeout=3000)
     s = vlib.harness_results(ck, p)
@@ -136,7 +142,7 @@ def main():
     ck.set("max_body_bytes", s["max_body_bytes"])
     ck.set("traces_validated_against_impl", s["exchanges"])
     ck.set("exhaustive", True)
-    ck.set("bounds", {"content_types": 5, "methods": "GET; HEAD x {full,empty} x {none,scriptsrc}", "encodings": 4, "requests": 2, "skip_marker": 2, "csp_shapes": 11, "body_shapes": 11,
+    ck.set("bounds", {"content_types": 5, "methods": "GET; HEAD x {full,empty} x {none,scriptsrc}", "upstream_status": "200; 204 sub-space (304: not replayable, Go's server strips its Content-Type)", "encodings": 4, "requests": 2, "skip_marker": 2, "csp_shapes": 11, "body_shapes": 11,
                       "accept_encoding": 2, "sizes": "0, ~1 KiB, 4095..4097, 32767..32769, 65536, 3 MiB (seeded subset), 4 MiB-1, 4 MiB+1, 8 MiB+1 for one rewritten configuration per supported encoding (thorough: 1 MiB..16 MiB around powers of two, 3 documents)"})
     ck.set("rule", "every abstract configuration (%d)" % NCASES + "  is replayed end to end on the real proxy (rewritten pages at >= 2 body sizes; pass-through at 1 in quick, 8 in thorough); "
                    "documents are well-formed pages stable under x/net/html parse/render/parse")
